@@ -188,5 +188,52 @@ pub fn scenarios(tier: Tier) -> Vec<Scenario> {
             }
         }
     }
+    // a stale handle: subscriber 1 leaves (and is freed), a successor of the same kind joins,
+    // then the old handle is released a second time while actions flow
+    let mut add_stale = |chan: bool, np: u32, nsucc: u32, bound: u32| {
+        let mk = |id: u32| if chan { Op::Subscribed { id, cap: 2, pol: Pol::Block, gated: false, reads: false } } else { Op::AddSub { id, gated: false, reads: false } };
+        let mut prog = producers(Program::new(StoreSpec::new(1, 2, Pol::Block)), np, 1, |_, id| Op::Dispatch(Act::new(id)));
+        prog = prog.thread("stale", vec![Op::Unsub(1)]);
+        prog = prog.main(vec![
+            Op::AddSub { id: 2, gated: false, reads: false },
+            mk(1),
+            Op::Dispatch(Act::new(10)),
+            Op::Quiesce,
+            Op::Unsub(1),
+            Op::Quiesce,
+            mk(5),
+            if nsucc == 2 { mk(6) } else { Op::Note("one_successor", 0) },
+            Op::SpawnAll,
+            Op::JoinAll,
+            Op::Dispatch(Act::new(11)),
+            Op::Stop,
+        ]);
+        let channeled: Vec<u32> = if chan { vec![1, 5, 6] } else { vec![] };
+        let _ = nsucc;
+        v.push(scn(format!("C09/stale-{}P{}S{}", if chan { "chan" } else { "direct" }, np, nsucc), prog, bound, opts_elide(), move |r, _| {
+            let mut f = check(r, &[1], &[2], &channeled);
+            // the successors joined after action 10: they see everything from there on
+            let p = pipe(r);
+            let expected: Vec<_> = p.expected_stream().into_iter().filter(|e| e.0 != 10).collect();
+            for s in (5u32..7).take(nsucc as usize) {
+                let got = strip(&stream(r, "notify", s));
+                if got != expected {
+                    f.push(fnd("lifecycle-kept-sub-stream", format!("subscriber {} stayed registered but saw [{}] instead of [{}]", s, fmt_stream(&got), fmt_stream(&expected))));
+                }
+                let n = cbs_of(r, "unsub_cb").filter(|c| c.comp == s).count();
+                if n != 1 {
+                    f.push(fnd("on-unsubscribe-count", format!("subscriber {} got on_unsubscribe {} times", s, n)));
+                }
+            }
+            f
+        }));
+    };
+    add_stale(false, 1, 2, 2);
+    add_stale(true, 0, 1, 2);
+    if tier == Tier::Thorough {
+        add_stale(false, 2, 2, 3);
+        add_stale(true, 1, 1, 2);
+        add_stale(true, 0, 2, 2);
+    }
     v
 }
